@@ -26,15 +26,17 @@ def facts(repo, cfg):
     #   existing_value = lh_entry_v(existing_entry); if (existing_value) json_object_put(existing_value);
     #   lh_entry_set_val(existing_entry, val); return 0;
     b_add = func_body(jo, "json_object_object_add_ex")
-    m0 = re.search(r"existing_value\s*=\s*\(", b_add)
-    m1 = re.search(r"lh_entry_set_val\s*\(", b_add)
+    # local names are irrelevant: VAR = (json_object *)lh_entry_v(ENT); ... lh_entry_set_val(ENT, ...)
+    m0 = re.search(r"(\w+)\s*=\s*\(\s*(?:struct\s+)?json_object\s*\*\s*\)\s*lh_entry_v\s*\(\s*(\w+)\s*\)\s*;", b_add)
+    m1 = re.search(r"lh_entry_set_val\s*\(\s*%s\s*," % re.escape(m0.group(2)), b_add) if m0 else None
     if m0 and m1 and m0.end() < m1.start():
+        var = re.escape(m0.group(1))
         mid = b_add[m0.end():m1.start()]
         out.append(lit("heapAddExPutsExisting", "Bool",
-                       _b(re.search(r"if\s*\(\s*existing_value\s*\)\s*json_object_put\s*\(\s*existing_value\s*\)\s*;", mid) is not None),
-                       "json_object_object_add_ex: if (existing_value) json_object_put(existing_value) before lh_entry_set_val"))
+                       _b(re.search(r"if\s*\(\s*%s\s*\)\s*json_object_put\s*\(\s*%s\s*\)\s*;" % (var, var), mid) is not None),
+                       "json_object_object_add_ex: if (old) json_object_put(old) before lh_entry_set_val"))
         out.append(nat("heapAddExReturnsBeforeSet", len(re.findall(r"\breturn\b", mid)),
-                       "json_object_object_add_ex: return statements between reading existing_value and lh_entry_set_val"))
+                       "json_object_object_add_ex: return statements between reading the old value and lh_entry_set_val"))
     else:
         out.append(lit("heapAddExPutsExisting", "Bool", "false", "NOT FOUND in source"))
         out.append(nat("heapAddExReturnsBeforeSet", None, "existing-entry path of json_object_object_add_ex"))
